@@ -265,6 +265,14 @@ Fixpoint cfgs_mirrored (src ts is_ : list (list attr)) : bool :=
   | _, _, _ => false
   end.
 
+(** the methods of the delegation-target trait (the first generated trait, when there is one) carry the attributes of the
+    source trait's methods: a [cfg] dropped there leaves a dangling method in the trait the implementations are written against *)
+Definition target_attrs_mirrored (src : list (list attr)) (ds : list item_trait) : bool :=
+  match ds with
+  | d :: _ => attrs_mirrored src (map fst (trait_sigs d)) (map fst (trait_sigs d))
+  | [] => true
+  end.
+
 Definition view_C18 (c : ctx) (items : list item) : view :=
   match x_input c, source_fns (x_input c), parts (x_input c) items with
   | InFn h _ _, Some _, Some (GFn f tr im) =>
@@ -289,9 +297,11 @@ Definition view_C18 (c : ctx) (items : list item) : view :=
                cfgs_mirrored (map (fun '(a, _, _, _) => a) src) (map (fun '(a, _, _) => a) (impl_fns im))
                              (map (fun '(a, _, _) => a) (impl_fns im)))
               (i_attrs im ++ flat_map (fun '(a, _, _) => a) (impl_fns im))
-  | InTrait _ t, _, Some (GTrait tr _ im) =>
-      decided (attrs_mirrored (map fst (trait_sigs t)) (map fst (trait_sigs tr)) (map (fun '(a, _, _) => a) (impl_fns im)))
-              (flat_map fst (trait_sigs tr) ++ flat_map (fun '(a, _, _) => a) (impl_fns im))
+  | InTrait _ t, _, Some (GTrait tr ds im) =>
+      decided (attrs_mirrored (map fst (trait_sigs t)) (map fst (trait_sigs tr)) (map (fun '(a, _, _) => a) (impl_fns im)) &&
+               target_attrs_mirrored (map fst (trait_sigs t)) ds)
+              (flat_map fst (trait_sigs tr) ++ flat_map (fun '(a, _, _) => a) (impl_fns im) ++
+               flat_map (fun d => flat_map fst (trait_sigs d)) ds)
   | (InFn _ _ _ | InMod _ _ _ _ _ | InTrait _ _ | InImpl _ _ _ _ _ _), _, None => undetermined
   | _, _, _ => na
   end.
